@@ -359,10 +359,10 @@ func genGzHdr(r *kern.Rng) *scen.GzHdr {
 		return string(rs)
 	}
 	if r.Pct(50) {
-		h.Name = latin(r.Pick(0, 1, 5, 20, 511, 512, 513, 2000))
+		h.Name = latin(r.Pick(0, 1, 5, 20, 100, 511))
 	}
 	if r.Pct(50) {
-		h.Comment = latin(r.Pick(0, 1, 5, 20, 511, 512, 513, 2000))
+		h.Comment = latin(r.Pick(0, 1, 5, 20, 100, 511))
 	}
 	if r.Pct(40) {
 		h.HasExtra = true
